@@ -544,9 +544,7 @@ func (w *world) settle() {
 				}
 				if _, maxR, off := w.window(r); len(r.txs) > 0 && maxR > 0 && !off {
 					last := r.txs[len(r.txs)-1].at
-					// (with intervals of R/2 a retry timer armed during the harness' own sleep may be
-					// due at this very instant and fire after the sleep's timer: due "just now" is not late)
-					if now > last+maxR || (now == last+maxR && !w.retuned) {
+					if now >= last+maxR {
 						kit.Failf("no-retx-after-interval", "%s: request %08x last sent at %v, retry interval %v elapsed (now %v), not re-sent", m.name, r.id, last, maxR, now)
 					}
 				}
